@@ -22,6 +22,7 @@ EXPLANATION = (
     "declared default, presence tested by `is not None`. Does not decide: atomicity of single-key dict/set operations "
     "(assumed: GIL / per-object locks), unscoped use SQLLineageConfig(K=v) without `with`."
     " R15.5 also requires that no path of the coercion function returns the value as it came. R15.7 no thread / process pool or new thread anywhere in the package (scoped overrides are looked up under the calling thread's id)."
+    " R15.1 the key of the per-thread state is the interpreter's thread identity (found by role when the identity function is gone); R15.9 (= R12.2) no memo keyed by equality on the coercion function."
 )
 RULE_TEXT = (
     "one obligation per container access / store / raise / return / look-up site in the loader class; non-trivial = "
